@@ -81,6 +81,10 @@ type op struct {
 	Format  string            `json:"format,omitempty"` // tar | zip | zip-deflate | copy
 	Dest    string            `json:"dest,omitempty"`   // mem | os
 	Probes  []string          `json:"probes,omitempty"`
+	ToPath  string            `json:"to_path,omitempty"` // copy-path: destination path as spelled
+	Extern  bool              `json:"extern,omitempty"`  // CopyWithExternalAndLocalPaths (only where the destination supports it)
+	Helper  bool              `json:"helper,omitempty"`  // put through storage.PutPath instead of Put/Write/Close
+	List    string            `json:"list,omitempty"`    // list: all-paths | all-object-infos | is-empty | exists
 }
 
 type c14Case struct {
@@ -199,6 +203,27 @@ func newMachine(su setup, fastDir, realDir string, class func(string)) *machine 
 		m.stores = append(m.stores, st)
 	}
 	return m
+}
+
+func (m *machine) poolSet() map[string]struct{} {
+	out := map[string]struct{}{}
+	for _, p := range m.setup.Pool {
+		out[p] = struct{}{}
+	}
+	return out
+}
+
+// viewReads reports whether the view has the store as a leaf.
+func (m *machine) viewReads(v *bucketmodel.View, store int) bool {
+	if v.Kind == "store" {
+		return v.Store == store
+	}
+	for _, s := range v.Subs {
+		if m.viewReads(s, store) {
+			return true
+		}
+	}
+	return false
 }
 
 func (m *machine) models() []bucketmodel.Model {
@@ -464,6 +489,14 @@ func (m *machine) apply(o op) (string, string) {
 		return m.applyView(o)
 	case "roundtrip":
 		return m.applyRoundTrip(o)
+	case "copy-path":
+		return m.applyCopyPath(o)
+	case "copy-object":
+		return m.applyCopyObject(o)
+	case "copy-reader":
+		return m.applyCopyReader(o)
+	case "list":
+		return m.applyList(o)
 	}
 	harness("unknown op %q", o.Kind)
 	return "", ""
@@ -486,12 +519,18 @@ func (m *machine) applyPut(o op) (string, string) {
 		if o.Atomic {
 			opts = append(opts, storage.PutWithAtomic())
 		}
-		w, err := b.subject.Put(ctx, o.Path, opts...)
-		if err == nil {
-			half := len(data) / 2
-			_, err1 := w.Write(data[:half])
-			_, err2 := w.Write(data[half:])
-			err = errors.Join(err1, err2, w.Close())
+		var err error
+		if o.Helper {
+			err = storage.PutPath(ctx, b.subject, o.Path, data, opts...)
+		} else {
+			var w storage.WriteObjectCloser
+			w, err = b.subject.Put(ctx, o.Path, opts...)
+			if err == nil {
+				half := len(data) / 2
+				_, err1 := w.Write(data[:half])
+				_, err2 := w.Write(data[half:])
+				err = errors.Join(err1, err2, w.Close())
+			}
 		}
 		if err != nil {
 			return "put-failed", fmt.Sprintf("%s: Put(%q) (normal form %q, %d bytes, atomic=%v) failed: %v", b.label(o.Store), o.Path, n, len(data), o.Atomic, err)
@@ -565,6 +604,15 @@ func (m *machine) applyGet(o op) (string, string) {
 		if key, msg := checkObject(b.subject, b.label(o.Store), o.Path, want, present, false, n == ".", false); key != "" {
 			return key, msg + fmt.Sprintf(" (normal form %q)", n)
 		}
+		data, err := storage.ReadPath(ctx, b.subject, o.Path)
+		switch {
+		case present && (err != nil || !bytes.Equal(data, want)):
+			return "model-mismatch-get", fmt.Sprintf("%s: storage.ReadPath(%q) = %s, err=%s; the model has %s", b.label(o.Store), o.Path, describe(data), errStr(err), describe(want))
+		case !present && err == nil:
+			return "model-mismatch-get", fmt.Sprintf("%s: storage.ReadPath(%q) returned %s, the model has no such object", b.label(o.Store), o.Path, describe(data))
+		case !present && n != "." && !isNotExist(err):
+			return "absent-not-notexist", fmt.Sprintf("%s: storage.ReadPath(%q) of an absent object: error %q is not a not-exist error", b.label(o.Store), o.Path, err)
+		}
 	}
 	return "", ""
 }
@@ -594,16 +642,279 @@ func (m *machine) applyWalk(o op) (string, string) {
 	return "", ""
 }
 
+// copyOptions: the external-path option is only used where every backend of the destination
+// supports it (an unsupported destination fails half-way, which is C15's subject, not C14's).
+func (m *machine) copyOptions(o op, to *store) ([]storage.CopyOption, string) {
+	var opts []storage.CopyOption
+	desc := fmt.Sprintf("atomic=%v", o.Atomic)
+	if o.Atomic {
+		opts = append(opts, storage.CopyWithAtomic())
+	}
+	if o.Extern {
+		supported := true
+		for _, b := range to.backends {
+			supported = supported && b.subject.SetExternalAndLocalPathsSupported()
+		}
+		if supported {
+			opts = append(opts, storage.CopyWithExternalAndLocalPaths())
+			desc += ", external+local paths"
+			m.class("copy-with-external-paths")
+		}
+	}
+	return opts, desc
+}
+
+// checkBoth: full comparison of the destination and of the source store.
+func (m *machine) checkBoth(from, to int) (string, string) {
+	if key, msg := m.fullCheck(to, ""); key != "" {
+		return key, msg
+	}
+	if from != to {
+		return m.fullCheck(from, "")
+	}
+	return "", ""
+}
+
+// applyCopyPath: storage.CopyPath(A, p, B, q) is B[q] = A[p] on the maps, nothing else changes.
+func (m *machine) applyCopyPath(o op) (string, string) {
+	from, to := m.stores[o.Store], m.stores[o.To]
+	pn := m.norm(o)
+	qn, v := pathgen.RefNormalize(o.ToPath)
+	if v != pathgen.OK || qn == "." {
+		harness("copy-path destination %q", o.ToPath)
+	}
+	srcObjs, dups := from.model, map[string]bool{}
+	if o.View != nil {
+		ref := o.View.Ref(m.models())
+		srcObjs, dups = ref.Objs, ref.Dups
+	} else if o.Store == o.To && pn == qn {
+		harness("copy-path of %q onto itself", pn)
+	}
+	data, present := srcObjs[pn]
+	opts, optDesc := m.copyOptions(o, to)
+	for i, dst := range to.backends {
+		var src storage.ReadBucket
+		srcName := ""
+		switch {
+		case o.View != nil:
+			src = o.View.Build(m.readBuckets(o.Variant))
+			srcName = "view " + viewString(o.View)
+		case o.Store == o.To:
+			src, srcName = dst.subject, dst.label(o.Store)
+		default:
+			b := from.backends[o.Variant%len(from.backends)]
+			src, srcName = b.subject, b.label(o.Store)
+		}
+		_ = i
+		err := storage.CopyPath(ctx, src, o.Path, dst.subject, o.ToPath, opts...)
+		what := fmt.Sprintf("storage.CopyPath(%s, %q -> %s, %q; %s) (normal forms %q -> %q)", srcName, o.Path, dst.label(o.To), o.ToPath, optDesc, pn, qn)
+		switch {
+		case present:
+			if err != nil {
+				return "copy-path-failed", fmt.Sprintf("%s failed: %v", what, err)
+			}
+			got, gerr := readAll(dst.subject, qn)
+			if gerr != nil || !bytes.Equal(got, data) {
+				atSource := "nothing"
+				if pn != qn {
+					if other, oerr := readAll(dst.subject, pn); oerr == nil {
+						atSource = describe(other)
+					}
+				}
+				return "copy-helper-wrong-destination", fmt.Sprintf("%s returned no error, but the destination has %s (err=%s) at %q instead of %s; at the SOURCE path %q the destination now has %s (model: %s)",
+					what, describe(got), errStr(gerr), qn, describe(data), pn, atSource, describeOpt(to.model, pn))
+			}
+		case dups[pn]:
+			if err == nil || isNotExist(err) {
+				return "union-duplicate-hidden", fmt.Sprintf("%s: the source path is in two members of a union, got err=%s", what, errStr(err))
+			}
+		case err == nil:
+			return "copy-path-absent-succeeded", fmt.Sprintf("%s of an absent source object returned no error", what)
+		case pn != "." && !isNotExist(err):
+			return "absent-not-notexist", fmt.Sprintf("%s of an absent source object: error %q is not a not-exist error", what, err)
+		}
+	}
+	if present {
+		to.model[qn] = data
+	}
+	return m.checkBoth(o.Store, o.To)
+}
+
+func describeOpt(model bucketmodel.Model, k string) string {
+	if d, ok := model[k]; ok {
+		return describe(d)
+	}
+	return "no object"
+}
+
+// applyCopyObject: storage.CopyReadObject(B, A.Get(p)) is B[p] = A[p].
+func (m *machine) applyCopyObject(o op) (string, string) {
+	from, to := m.stores[o.Store], m.stores[o.To]
+	if o.Store == o.To {
+		harness("copy-object within one store")
+	}
+	pn := m.norm(o)
+	data, present := from.model[pn]
+	src := from.backends[o.Variant%len(from.backends)]
+	opts, optDesc := m.copyOptions(o, to)
+	for _, dst := range to.backends {
+		what := fmt.Sprintf("storage.CopyReadObject(%s <- %s.Get(%q); %s) (normal form %q)", dst.label(o.To), src.label(o.Store), o.Path, optDesc, pn)
+		obj, err := src.subject.Get(ctx, o.Path)
+		if !present {
+			if err == nil {
+				_ = obj.Close()
+				return "model-mismatch-get", fmt.Sprintf("%s: Get succeeded, the model has no such object", what)
+			}
+			continue
+		}
+		if err != nil {
+			return "model-mismatch-get", fmt.Sprintf("%s: Get failed: %v", what, err)
+		}
+		err = errors.Join(storage.CopyReadObject(ctx, dst.subject, obj, opts...), obj.Close())
+		if err != nil {
+			return "copy-object-failed", fmt.Sprintf("%s failed: %v", what, err)
+		}
+		if got, gerr := readAll(dst.subject, pn); gerr != nil || !bytes.Equal(got, data) {
+			return "copy-helper-wrong-destination", fmt.Sprintf("%s returned no error, but the destination has %s (err=%s) at %q instead of %s", what, describe(got), errStr(gerr), pn, describe(data))
+		}
+	}
+	if present {
+		to.model[pn] = data
+	}
+	return m.checkBoth(o.Store, o.To)
+}
+
+// applyCopyReader: storage.CopyReader(B, reader, q) is B[q] = bytes.
+func (m *machine) applyCopyReader(o op) (string, string) {
+	st := m.stores[o.Store]
+	n := m.norm(o)
+	data := content(o.Size, o.Seed)
+	for _, b := range st.backends {
+		if err := storage.CopyReader(ctx, b.subject, bytes.NewReader(data), o.Path); err != nil {
+			return "put-failed", fmt.Sprintf("%s: storage.CopyReader(%q) (normal form %q, %d bytes) failed: %v", b.label(o.Store), o.Path, n, len(data), err)
+		}
+	}
+	st.model[n] = data
+	return m.fullCheck(o.Store, "")
+}
+
+func equalStrings(a, b []string) bool {
+	if len(a) != len(b) {
+		return false
+	}
+	for i := range a {
+		if a[i] != b[i] {
+			return false
+		}
+	}
+	return true
+}
+
+// checkListing checks the read helpers built on Walk / Stat for one prefix or path.
+//
+//	want: sorted model paths under the prefix; mustFail: a union duplicate lies under the prefix;
+//	tolerate: an error with an empty result is acceptable (prefix below an object of a disk bucket)
+func checkListing(b storage.ReadBucket, what, helper, p string, want []string, mustFail bool, tolerate func(error) bool) (string, string) {
+	switch helper {
+	case "all-paths", "all-object-infos":
+		var got []string
+		var err error
+		if helper == "all-paths" {
+			got, err = storage.AllPaths(ctx, b, p)
+		} else {
+			var infos []storage.ObjectInfo
+			infos, err = storage.AllObjectInfos(ctx, b, p)
+			for _, info := range infos {
+				got = append(got, info.Path())
+			}
+		}
+		name := fmt.Sprintf("%s: storage.%s(%q)", what, map[string]string{"all-paths": "AllPaths", "all-object-infos": "AllObjectInfos"}[helper], p)
+		if mustFail {
+			if err == nil {
+				return "union-duplicate-hidden", fmt.Sprintf("%s returned no error although a path under the prefix is in two members of a union (%q)", name, got)
+			}
+			return "", ""
+		}
+		if err != nil {
+			if tolerate(err) && len(got) == 0 && len(want) == 0 {
+				return "", ""
+			}
+			return "walk-error", fmt.Sprintf("%s failed: %v", name, err)
+		}
+		if !equalStrings(got, want) { // documented: sorted
+			n, _ := pathgen.RefNormalize(p)
+			if key, msg := compareWalk(name, got, want, n); key != "" {
+				return key, msg
+			}
+			return "listing-not-sorted", fmt.Sprintf("%s returned %q, expected the sorted list %q", name, got, want)
+		}
+	case "is-empty":
+		if mustFail {
+			return "", "" // the walk stops at the first object, before or after it meets the duplicate
+		}
+		empty, err := storage.IsEmpty(ctx, b, p)
+		if err != nil {
+			if tolerate(err) && len(want) == 0 {
+				return "", ""
+			}
+			return "walk-error", fmt.Sprintf("%s: storage.IsEmpty(%q) failed: %v", what, p, err)
+		}
+		if empty != (len(want) == 0) {
+			return "model-mismatch-walk", fmt.Sprintf("%s: storage.IsEmpty(%q) = %v, the model has %q under the prefix", what, p, empty, want)
+		}
+	default:
+		harness("unknown listing helper %q", helper)
+	}
+	return "", ""
+}
+
+// checkExists: storage.Exists(path) is "path is a key of the map".
+func checkExists(b storage.ReadBucket, what, p string, present, dup, root bool) (string, string) {
+	exists, err := storage.Exists(ctx, b, p)
+	switch {
+	case dup:
+		if err == nil {
+			return "union-duplicate-hidden", fmt.Sprintf("%s: storage.Exists(%q) = %v without error although the path is in two members of a union", what, p, exists)
+		}
+	case root:
+		if exists {
+			return "root-as-object", fmt.Sprintf("%s: storage.Exists(%q) (the root itself) = true", what, p)
+		}
+	case err != nil:
+		return "absent-not-notexist", fmt.Sprintf("%s: storage.Exists(%q) failed: %v", what, p, err)
+	case exists != present:
+		return "model-mismatch-stat", fmt.Sprintf("%s: storage.Exists(%q) = %v, the model says %v", what, p, exists, present)
+	}
+	return "", ""
+}
+
+func (m *machine) applyList(o op) (string, string) {
+	st := m.stores[o.Store]
+	n := m.norm(o)
+	for _, b := range st.backends {
+		what := b.label(o.Store)
+		if o.List == "exists" {
+			_, present := st.model[n]
+			if key, msg := checkExists(b.subject, what, o.Path, present, false, n == "."); key != "" {
+				return key, msg + fmt.Sprintf(" (normal form %q)", n)
+			}
+			continue
+		}
+		odd := belowExistingFile(st.model, n)
+		if key, msg := checkListing(b.subject, what, o.List, o.Path, st.model.Under(n), false, func(error) bool { return odd }); key != "" {
+			return key, msg + fmt.Sprintf(" (normal form %q)", n)
+		}
+	}
+	return "", ""
+}
+
 func (m *machine) applyCopy(o op) (string, string) {
 	from, to := m.stores[o.Store], m.stores[o.To]
 	src := from.backends[o.Variant%len(from.backends)]
+	opts, optDesc := m.copyOptions(o, to)
 	for _, dst := range to.backends {
-		var opts []storage.CopyOption
-		if o.Atomic {
-			opts = append(opts, storage.CopyWithAtomic())
-		}
 		n, err := storage.Copy(ctx, src.subject, dst.subject, opts...)
-		what := fmt.Sprintf("storage.Copy(%s -> %s, atomic=%v)", src.label(o.Store), dst.label(o.To), o.Atomic)
+		what := fmt.Sprintf("storage.Copy(%s -> %s, %s)", src.label(o.Store), dst.label(o.To), optDesc)
 		if err != nil {
 			return "copy-failed", fmt.Sprintf("%s failed: %v", what, err)
 		}
@@ -614,7 +925,7 @@ func (m *machine) applyCopy(o op) (string, string) {
 	for k, v := range from.model {
 		to.model[k] = v
 	}
-	return m.fullCheck(o.To, "")
+	return m.checkBoth(o.Store, o.To)
 }
 
 func (m *machine) applyReopen(o op) (string, string) {
@@ -652,10 +963,16 @@ func checkView(b storage.ReadBucket, what string, ref bucketmodel.RefView, probe
 		prefixes = append(prefixes, p)
 	}
 	sort.Strings(prefixes)
-	for _, p := range prefixes {
+	enotdir := func(err error) bool { return errors.Is(err, syscall.ENOTDIR) }
+	for i, p := range prefixes {
 		n, v := pathgen.RefNormalize(p)
 		if v != pathgen.OK {
 			harness("probe %q is not contained", p)
+		}
+		// the read helpers built on Walk take turns over the prefixes
+		helper := []string{"all-paths", "all-object-infos", "is-empty"}[i%3]
+		if key, msg := checkListing(b, what, helper, p, ref.Objs.Under(n), ref.WalkMustFail(n), enotdir); key != "" {
+			return key, msg
 		}
 		w := walk(b, p)
 		wwhat := fmt.Sprintf("%s: Walk(%q) (normal form %q)", what, p, n)
@@ -696,6 +1013,9 @@ func checkView(b storage.ReadBucket, what string, ref bucketmodel.RefView, probe
 		}
 		want, exists := ref.Objs[n]
 		if key, msg := checkObject(b, what, p, want, exists, ref.Dups[n], n == ".", strip); key != "" {
+			return key, msg
+		}
+		if key, msg := checkExists(b, what, p, exists, ref.Dups[n], n == "."); key != "" {
 			return key, msg
 		}
 	}
@@ -1006,8 +1326,8 @@ var opKinds = func() []string {
 		n    int
 	}{
 		// rapid favours the early entries of a SampledFrom list; the most common kind goes last
-		{"walk", 13}, {"delete-all", 9}, {"delete", 9}, {"view", 10}, {"get", 7}, {"stat", 4},
-		{"copy", 4}, {"roundtrip", 5}, {"reopen", 3}, {"put", 30},
+		{"walk", 13}, {"delete-all", 9}, {"delete", 9}, {"copy-path", 9}, {"view", 10}, {"get", 7}, {"stat", 4},
+		{"list", 7}, {"copy", 4}, {"copy-object", 3}, {"copy-reader", 3}, {"roundtrip", 5}, {"reopen", 3}, {"put", 30},
 	}
 	var out []string
 	for _, w := range weights {
@@ -1038,6 +1358,77 @@ func genOp(t *rapid.T, m *machine) op {
 		}
 		o.Seed = rapid.IntRange(0, 999).Draw(t, "seed")
 		o.Atomic = rapid.Bool().Draw(t, "atomic")
+		o.Helper = rapid.IntRange(0, 3).Draw(t, "putpath") == 0
+	case "copy-reader":
+		o.Path = spell(t, rapid.SampledFrom(pool).Draw(t, "poolpath"))
+		o.Size = rapid.SampledFrom([]int{0, 1, 17, 64, 40000}).Draw(t, "size")
+		o.Seed = rapid.IntRange(0, 999).Draw(t, "seed")
+	case "copy-path":
+		// source: a store (70 %, in a third of those the destination store itself) or a view
+		o.Variant = rapid.IntRange(0, 1).Draw(t, "variant")
+		o.Atomic = rapid.Bool().Draw(t, "atomic")
+		o.Extern = rapid.IntRange(0, 3).Draw(t, "extern") == 0
+		// never read and write the same underlying object in one call (a view that reads the
+		// destination store may alias any of its objects, so such a view is not used as a source)
+		var srcKeys []string
+		sourceKind := rapid.IntRange(0, 9).Draw(t, "source")
+		if sourceKind < 3 {
+			view, ref := genView(t, m.models(), rapid.IntRange(1, 3).Draw(t, "depth"))
+			var free []int
+			for i := range m.stores {
+				if !m.viewReads(view, i) {
+					free = append(free, i)
+				}
+			}
+			if len(free) > 0 {
+				o.View = view
+				o.To = rapid.SampledFrom(free).Draw(t, "to")
+				srcKeys = ref.AllKeys()
+			}
+		}
+		if o.View == nil {
+			if sourceKind < 5 {
+				o.To = o.Store
+			} else {
+				o.To = (o.Store + rapid.IntRange(1, len(m.stores)-1).Draw(t, "to")) % len(m.stores)
+			}
+			srcKeys = m.stores[o.Store].model.Keys()
+		}
+		if len(srcKeys) > 0 && rapid.IntRange(0, 7).Draw(t, "existing") > 0 {
+			o.Path = spell(t, rapid.SampledFrom(srcKeys).Draw(t, "srckey"))
+		} else {
+			o.Path = genObjectPath(t, pool)
+		}
+		pn, _ := pathgen.RefNormalize(o.Path)
+		// destination: a different pool path in most cases; the same path only between buckets
+		dests := make([]string, 0, len(pool))
+		for _, q := range pool {
+			if q != pn {
+				dests = append(dests, q)
+			}
+		}
+		q := rapid.SampledFrom(dests).Draw(t, "destpath")
+		if _, inPool := m.poolSet()[pn]; inPool && (o.View != nil || o.To != o.Store) && rapid.IntRange(0, 4).Draw(t, "samepath") == 0 {
+			q = pn
+		}
+		o.ToPath = spell(t, q)
+	case "copy-object":
+		o.To = (o.Store + rapid.IntRange(1, len(m.stores)-1).Draw(t, "to")) % len(m.stores)
+		o.Variant = rapid.IntRange(0, 1).Draw(t, "variant")
+		o.Atomic = rapid.Bool().Draw(t, "atomic")
+		o.Extern = rapid.IntRange(0, 3).Draw(t, "extern") == 0
+		if keys := m.stores[o.Store].model.Keys(); len(keys) > 0 && rapid.IntRange(0, 7).Draw(t, "existing") > 0 {
+			o.Path = spell(t, rapid.SampledFrom(keys).Draw(t, "srckey"))
+		} else {
+			o.Path = spell(t, rapid.SampledFrom(pool).Draw(t, "poolpath"))
+		}
+	case "list":
+		o.List = rapid.SampledFrom([]string{"all-paths", "all-object-infos", "is-empty", "exists"}).Draw(t, "helper")
+		if o.List == "exists" {
+			o.Path = genObjectPath(t, pool)
+		} else {
+			o.Path = genPrefix(t, pool)
+		}
 	case "delete", "get", "stat":
 		o.Path = genObjectPath(t, pool)
 	case "delete-all", "walk":
@@ -1046,6 +1437,7 @@ func genOp(t *rapid.T, m *machine) op {
 		o.To = (o.Store + rapid.IntRange(1, len(m.stores)-1).Draw(t, "to")) % len(m.stores)
 		o.Variant = rapid.IntRange(0, 1).Draw(t, "variant")
 		o.Atomic = rapid.Bool().Draw(t, "atomic")
+		o.Extern = rapid.IntRange(0, 3).Draw(t, "extern") == 0
 	case "view":
 		o.Store = 0
 		o.View, _ = genView(t, m.models(), 3)
@@ -1078,6 +1470,24 @@ func classifyOp(r *evid.Recorder, o op) {
 		if o.Atomic {
 			r.Class("put-atomic")
 		}
+	case "copy-path":
+		pn, _ := pathgen.RefNormalize(o.Path)
+		qn, _ := pathgen.RefNormalize(o.ToPath)
+		switch {
+		case o.View != nil:
+			r.Class("copy-path-from-view")
+		case o.Store == o.To:
+			r.Class("copy-path-within-store")
+		default:
+			r.Class("copy-path-between-stores")
+		}
+		if pn != qn {
+			r.Class("copy-path-different-destination")
+		} else {
+			r.Class("copy-path-same-path")
+		}
+	case "list":
+		r.Class("list-" + o.List)
 	case "view", "roundtrip":
 		r.Class(fmt.Sprintf("view-depth-%d", o.View.Depth()))
 		for _, k := range []string{"map", "filter", "union", "overlay", "strip"} {
